@@ -395,3 +395,25 @@ def run_sharded(prop, tier, seed, ctx):
             bk.setdefault("seed", r["seed"])
         ctx.merge(r)
     return results
+
+
+# --------------------------------------------------------------------------
+# history properties: rule-based machines delegate every step to an interpreter so that
+# the recorded history *is* the replay file
+
+def machine_violation(ctx, prop, history, v):
+    """called by a machine when a step's oracle failed; collect or raise"""
+    spec = {"history": list(history)}
+    attr = getattr(prop, "attribute", None)
+    known = attr(v.bucket, spec, v.msg) if attr else None
+    if known:
+        ctx.excluded_known[known] += 1
+        return
+    if ctx.collect:
+        ctx.record(v.bucket, spec, v.msg)
+        return
+    if ctx.target_bucket is None or v.bucket == ctx.target_bucket:
+        ctx.last_failing = (spec, v.msg)
+        if ctx.shrink_deadline and time.time() > ctx.shrink_deadline:
+            raise ShrinkStop()
+        raise v
